@@ -54,3 +54,43 @@ func H_C10_sacramento_step() {
 	vsym.Hunt(bf.Get1(0) <= ro.Get1(0)+rrAbs, "baseflow-at-most-runoff")
 	vsym.Hunt(surf.Get1(0) >= -rrAbs, "surface-runoff-nonnegative")
 }
+
+// H_C10_sacramento_lower_zone_budget: a rainless step from an arbitrary lower-zone state with an
+// empty upper zone (so that upper-zone evaporation, percolation and interflow vanish and the
+// routed flow is the baseflow alone), no channel losses: the lower zone's water account closes,
+//   tension' + (1+side)(primary' + supplemental') =
+//   tension  + (1+side)(primary  + supplemental ) - transpiration - baseflow (on the pervious area),
+// with transpiration = min(pet * tension/(uztwm+lztwm), tension).  This covers the tension-water
+// resupply from free water (both the supplemental store and the shortfall taken from the primary
+// store) and both baseflow withdrawals, for every state and parameter vector in range.
+//vsym:prop=C10 tier=quick ints=int floats=real timeout=60 cut=2 unwind=12 prunefrom=1 wall=300
+func H_C10_sacramento_lower_zone_budget() {
+	pet := c10in("pet", 0, 10)
+	lzpk, lzsk, uzk := c10in("lzpk", 0.001, 0.5), c10in("lzsk", 0.001, 0.5), c10in("uzk", 0.001, 0.5)
+	uztwm, uzfwm := c10in("uztwm", 1, 100), c10in("uzfwm", 1, 50)
+	lztwm, lzfsm, lzfpm := c10in("lztwm", 1, 300), c10in("lzfsm", 1, 100), c10in("lzfpm", 1, 300)
+	pfree, rexp, zperc := c10in("pfree", 0, 1), c10in("rexp", 1, 3), c10in("zperc", 0, 50)
+	side := c10in("side", 0, 0.5)
+	pctim, adimp := c10in("pctim", 0, 0.3), c10in("adimp", 0, 0.3)
+	rserv := c10in("rserv", 0, 0.4)
+	lztwc := c10in("lztwc", 0, 300)
+	lzfpc := c10in("lzfpc", 0, 300)
+	lzfsc := c10in("lzfsc", 0, 100)
+	adimc := c10in("adimc", 0, 400)
+	vsym.Assume(lztwc <= lztwm && lzfpc <= lzfpm && lzfsc <= lzfsm && adimc <= uztwm+lztwm)
+	aet, ro, imp, surf, bf := rrOut(1), rrOut(1), rrOut(1), rrOut(1), rrOut(1)
+	_, _, t1, p1, s1, _ := sacramento(rrOne(0), rrOne(pet), 0, 0, lztwc, lzfpc, lzfsc, adimc,
+		lzpk, lzsk, uzk, uztwm, uzfwm, lztwm, lzfsm, lzfpm, pfree, rexp, zperc, side, 0, pctim, adimp, 0, rserv,
+		1, 0, 0, 0, 0, aet, ro, imp, surf, bf)
+	vsym.Reach("returned")
+	e3 := pet * lztwc / (uztwm + lztwm)
+	if e3 > lztwc {
+		e3 = lztwc
+	}
+	before := lztwc + (1+side)*(lzfpc+lzfsc)
+	after := t1 + (1+side)*(p1+s1)
+	bfRaw := bf.Get1(0) * (1 + side) / (1 - pctim - adimp)
+	vsym.HuntNear(after, before-e3-bfRaw, 1e-6, 1e-9, "lower-zone-water-account-closes")
+	vsym.Assert(t1 >= 0 && t1 <= lztwm+1e-9 && p1 >= 0 && p1 <= lzfpm+1e-9 && s1 >= 0 && s1 <= lzfsm+1e-9, "lower-zone-stores-within-capacity")
+	vsym.AssertNear(ro.Get1(0), bf.Get1(0), 1e-9, 1e-9, "rainless-empty-upper-zone-runoff-is-baseflow")
+}
